@@ -3,6 +3,7 @@ import NgVerif.Model.Readable
 import NgVerif.Model.Stats
 import NgVerif.Model.Morton
 import NgVerif.Model.Routing
+import NgVerif.Model.Shard
 /-
   ngdriver: line protocol. One request per line on stdin (space-separated tokens),
   one reply per line on stdout. Unknown / malformed requests answer `bad-request`.
@@ -13,6 +14,60 @@ def triple (l : List Nat) : Option (Nat × Nat × Nat) :=
   match l with
   | [a, b, c] => some (a, b, c)
   | _ => none
+
+def parseOp (t : String) : Option (Nat × Bytes) :=
+  match t.splitOn ":" with
+  | [i, h] => do
+    let i ← parseNat i
+    let b ← hexToBytes h
+    pure (i, b)
+  | _ => none
+
+def showRows (rows : List (Nat × Nat)) : String :=
+  showList (fun (a, b) => s!"{a}.{b}") rows
+
+def showState (st : MS.St) : String :=
+  let keys := (st.buf.map (·.1)).mergeSort (· ≤ ·)
+  s!"{st.appended} {st.lastId} {showNatList keys} {st.data.length} {showRows st.rows}"
+
+/-- run the stores of one minishard; reply per op `state` or `RuntimeError`, then the closed state -/
+def msRun (m s p : Nat) (ops : List (Nat × Bytes)) : String :=
+  match ops with
+  | [] => "empty"
+  | (id0, _) :: _ =>
+    let masked := Shard.maskedBits m s p id0
+    let nxt := Shard.nextId m s p masked
+    let rec go (st : MS.St) (ops : List (Nat × Bytes)) (acc : List String) : MS.St × List String :=
+      match ops with
+      | [] => (st, acc.reverse)
+      | (id, b) :: t =>
+        match MS.store nxt st id b with
+        | none => go st t ("RuntimeError" :: acc)
+        | some st' => go st' t (showState st' :: acc)
+    let (st, outs) := go MS.St.init ops []
+    let fl := MS.flush nxt st.buf.length st
+    let closed := MS.closeLoop nxt 1000000 fl
+    "|".intercalate outs ++ "|closed " ++ showState closed ++ " " ++ bytesToHex closed.data
+
+/-- group the ops of one shard by minishard, run + close each, sort by key, assemble -/
+def shardBuild (m s p : Nat) (ops : List (Nat × Bytes)) : String :=
+  let keys := ((ops.map fun (id, _) => Routing.minishardKey m p id).eraseDups).mergeSort (· ≤ ·)
+  let minis := keys.filterMap fun k =>
+    let mine := ops.filter fun (id, _) => Routing.minishardKey m p id == k
+    match mine with
+    | [] => none
+    | (id0, _) :: _ =>
+      let nxt := Shard.nextId m s p (Shard.maskedBits m s p id0)
+      match MS.runAll nxt MS.St.init mine with
+      | none => none
+      | some st =>
+        let fl := MS.flush nxt st.buf.length st
+        let closed := MS.closeLoop nxt 1000000 fl
+        some ({ key := k, data := closed.data, rows := closed.rows } : Shard.Mini)
+  if minis.length ≠ keys.length then "err RuntimeError" else
+  match Shard.assemble m minis with
+  | none => "err ShardedIOError"
+  | some f => "ok " ++ bytesToHex f
 
 def handle (toks : List String) : String :=
   match toks with
@@ -58,6 +113,26 @@ def handle (toks : List String) : String :=
     | some m, some s, some p, some id =>
       let sk := Routing.shardKey m s p id
       s!"{sk} {Routing.minishardKey m p id} {Routing.specShard m s p id} {Routing.specMinishard m p id} {Routing.fileName sk s} {Routing.minishardMask m} {Routing.shardMask m s} {Routing.preshiftMask p}"
+    | _, _, _, _ => "bad-request"
+  | ["ms-run", m, s, p, ops] =>
+    match parseNat m, parseNat s, parseNat p, parseList parseOp ops with
+    | some m, some s, some p, some ops => msRun m s p ops
+    | _, _, _, _ => "bad-request"
+  | ["shard-build", m, s, p, ops] =>
+    match parseNat m, parseNat s, parseNat p, parseList parseOp ops with
+    | some m, some s, some p, some ops => shardBuild m s p ops
+    | _, _, _, _ => "bad-request"
+  | ["spec-fetch", m, p, file, ids] =>
+    match parseNat m, parseNat p, hexToBytes file, parseList parseNat ids with
+    | some m, some p, some f, some ids =>
+      " ".intercalate (ids.map fun id => match Shard.specFetch m p f id with
+        | none => "none" | some b => bytesToHex b)
+    | _, _, _, _ => "bad-request"
+  | ["impl-fetch", m, p, file, ids] =>
+    match parseNat m, parseNat p, hexToBytes file, parseList parseNat ids with
+    | some m, some p, some f, some ids =>
+      " ".intercalate (ids.map fun id => match Shard.implFetch m p f id with
+        | none => "none" | some b => bytesToHex b)
     | _, _, _, _ => "bad-request"
   | _ => "bad-request"
 
